@@ -93,14 +93,17 @@ C16Clauses(ev) ==
          LET objs == ~(\E i \in DOMAIN P.args : P.args[i].model = ev.model /\ P.args[i].kind \in GenFails) IN
          << <<"C16.assemble", objs, ~objs \/ MatchChunks(ev.ids, Chunks(P.args, ev.model))>> >>
     [] ev.ev = "Exit" ->
-         << <<"C16.stdout=lib", ev.status = 0 /\ P.out = "none", ~(ev.status = 0 /\ P.out = "none") \/ ev.codeHash = ev.libHash>>,
+         << \* where the library pipeline has a result (a fault-free plan) the command line has one too
+            <<"C16.runs", ~FaultyPlan, FaultyPlan \/ ev.status = 0>>,
+            <<"C16.stdout=lib", ev.status = 0 /\ P.out = "none", ~(ev.status = 0 /\ P.out = "none") \/ ev.codeHash = ev.libHash>>,
             <<"C16.file=lib", ev.status = 0 /\ P.out \in {"old", "absent"},
               ~(ev.status = 0 /\ P.out \in {"old", "absent"}) \/ ev.fileHash = ev.libHash>>,
             <<"C16.all-models", ev.status = 0,
               ev.status # 0 \/ {hist[i].model : i \in {j \in DOMAIN hist : hist[j].ev = "Generate"}} = Models(P.args)>> >>
     [] ev.ev = "SubExit" ->
          \* (libHashes: the library text for every order of every pattern chunk -- that order is unspecified)
-         << <<"C16.sub.stdout=lib", ev.status = 0 /\ P.out = "none", ~(ev.status = 0 /\ P.out = "none") \/ ev.codeHash \in ToSet(ev.libHashes)>>,
+         << <<"C16.sub.runs", ~FaultyPlan, FaultyPlan \/ ev.status = 0>>,
+            <<"C16.sub.stdout=lib", ev.status = 0 /\ P.out = "none", ~(ev.status = 0 /\ P.out = "none") \/ ev.codeHash \in ToSet(ev.libHashes)>>,
             <<"C16.sub.file=lib", ev.status = 0 /\ P.out \in {"old", "absent"},
               ~(ev.status = 0 /\ P.out \in {"old", "absent"}) \/ ev.fileHash \in ToSet(ev.libHashes)>> >>
     [] OTHER -> <<>>
